@@ -187,6 +187,7 @@ class Engine:
                 raise OutOfSubset(f"more than {self.MAX_PATHS} paths")
             self.script, self.pos, self.taken = script, 0, []
             self.trail = []
+            self.path_tags = set()
             self.run_path()
             for j in range(len(script), len(self.taken)):
                 for alt in self.taken[j][1]:
@@ -250,7 +251,7 @@ class Engine:
             return
         n = self.site_ord.setdefault((kind, where), len([1 for k in self.site_ord if k[0] == kind]))
         oid = f"{self.c.prop}/{self.c.qual}/{kind}#{n}"
-        env = {"vars": dict(st.vars), "heap": st.heap.copy(), "nref": st.nref, "labels": dict(st.labels), "idx": list(st.idx), "trail": list(self.trail)}
+        env = {"vars": dict(st.vars), "heap": st.heap.copy(), "nref": st.nref, "labels": dict(st.labels), "idx": list(st.idx), "trail": list(self.trail), "tags": sorted(self.path_tags)}
         self.obligations.append(Obligation(oid, kind, list(st.pc), goal, list(st.idx), env, where))
 
     def assume(self, z):
@@ -473,7 +474,8 @@ class Engine:
         if v.ty == "fn":
             return z3.BoolVal(True)
         if v.ty == "any":
-            return z3.And(v.z != 0, z3.Function("any_truthy", I, B)(v.z))
+            # boxed booleans are distinguished atoms; None is 0; everything else through an uninterpreted predicate
+            return z3.If(v.z == atom("py:True"), z3.BoolVal(True), z3.And(v.z != 0, v.z != atom("py:False"), z3.Function("any_truthy", I, B)(v.z)))
         t = v.ty
         if t[0] in ("list", "dict", "set"):
             return z3.And(v.z != 0, self.len_of(v) != 0)
